@@ -324,3 +324,69 @@ Definition kml_doc_close (tol : Z) (a b : kml_doc) : bool :=
   | KmlDoc r s, KmlDoc r' s' => bbox_close tol r r' && subs_close tol s s'
   | _, _ => false
   end.
+
+(* ---- request objects and schedules.  request/tile.py: TileRequest has the CLASS attribute `dimensions = {}`;
+   _init_request assigns a fresh dict to the INSTANCE (`self.dimensions = {}`) and stores the grid path element of the URL
+   in it (`_layer_spec`); TileServer.layer / KMLServer.layer read it later, when the request is handled.  A WSGI server runs
+   requests of several threads interleaved: parsing and handling of different requests alternate arbitrarily. *)
+Record treq := mkReq {
+  rq_kml : bool;              (* KMLServer (True) or TileServer *)
+  rq_layer : Z;               (* layer name (an identifier) *)
+  rq_spec : option Z;         (* grid path element, e.g. EPSG3857 -> 3857; None: not given *)
+  rq_addr : address
+}.
+Inductive rev := RParse (i : nat) | RHandle (i : nat).
+
+Record rstate := mkRS {
+  cls_dims : option Z;                      (* _layer_spec entry of the class-level dict *)
+  inst_dims : list (nat * option Z);        (* requests whose instance owns a dict, latest first *)
+  answers : list (nat * option coord)       (* coordinate handed to the tile manager (None: refused), latest first *)
+}.
+Definition rs_init : rstate := mkRS None [] [].
+
+Fixpoint assoc_nat {A} (i : nat) (l : list (nat * A)) : option A :=
+  match l with
+  | [] => None
+  | (k, v) :: r => if Nat.eqb k i then Some v else assoc_nat i r
+  end.
+
+(* attribute lookup: the instance attribute if there is one, else the class attribute *)
+Definition dims_of (st : rstate) (i : nat) : option Z :=
+  match assoc_nat i (inst_dims st) with Some d => d | None => cls_dims st end.
+
+(* the layers of a tile service: name_internal = <layer>_<SRS code> -> TileLayer *)
+Definition layer_table := list (Z * Z * tlayer).
+Fixpoint find_layer (t : layer_table) (name spec : Z) : option tlayer :=
+  match t with
+  | [] => None
+  | (n, sp, l) :: r => if (n =? name) && (sp =? spec) then Some l else find_layer r name spec
+  end.
+(* TileServer._internal_layer / KMLServer._internal_layer: without path element the 900913 and 4326 grids are tried
+   (TileServer: 900913 first, KMLServer: 4326 first) *)
+Definition internal_layer (t : layer_table) (kml : bool) (name : Z) (spec : option Z) : option tlayer :=
+  match spec with
+  | Some sp => find_layer t name sp
+  | None =>
+    let first := if kml then 4326 else 900913 in
+    let second := if kml then 900913 else 4326 in
+    match find_layer t name first with
+    | Some l => Some l
+    | None => find_layer t name second
+    end
+  end.
+
+Definition handle_with (t : layer_table) (srv : origin_req) (r : treq) (spec : option Z) : option coord :=
+  match internal_layer t (rq_kml r) (rq_layer r) spec with
+  | None => None                                   (* unknown layer *)
+  | Some l => served l srv (rq_addr r)
+  end.
+
+Definition rstep (t : layer_table) (srv : origin_req) (reqs : nat -> treq) (st : rstate) (e : rev) : rstate :=
+  match e with
+  | RParse i => mkRS (cls_dims st) ((i, rq_spec (reqs i)) :: inst_dims st) (answers st)
+  | RHandle i => mkRS (cls_dims st) (inst_dims st) ((i, handle_with t srv (reqs i) (dims_of st i)) :: answers st)
+  end.
+Definition run_schedule (t : layer_table) (srv : origin_req) (reqs : nat -> treq) (sched : list rev) : rstate :=
+  fold_left (rstep t srv reqs) sched rs_init.
+
+Definition answer_of (st : rstate) (i : nat) : option (option coord) := assoc_nat i (answers st).
